@@ -8,7 +8,9 @@ SPEC = os.path.join(VERIF, "spec")
 HARNESS = os.path.join(VERIF, "harness")
 NCPU = min(16, os.cpu_count() or 4)
 JAR = "/opt/veriftools/tla/tla2tools.jar:/opt/veriftools/tla/CommunityModules-deps.jar"
-SAN = "-fsanitize=address,undefined -fno-sanitize=nonnull-attribute -fno-sanitize-recover=undefined"
+# signed arithmetic wraps (-fwrapv): an overflowing count is not a memory error; what a wrapped value then does to memory is
+# what ASan and the remaining UBSan checks (bounds, null, pointer-overflow, shifts, division) decide
+SAN = "-fsanitize=address,undefined -fno-sanitize=nonnull-attribute -fwrapv -fno-sanitize-recover=undefined"
 CFLAGS = "-DNEATVI_VERIF -g -O1 -fno-omit-frame-pointer " + SAN
 ASAN_ENV = {"ASAN_OPTIONS": "detect_leaks=0:abort_on_error=0:exitcode=86:allocator_may_return_null=1",
             "UBSAN_OPTIONS": "print_stacktrace=1:halt_on_error=1:exitcode=87"}
@@ -19,7 +21,7 @@ class Infra(Exception):
 
 
 class Ctx:
-    def __init__(self, pid, tier, seed):
+    def __init__(self, pid, tier, seed, wipe=True):
         self.pid, self.tier, self.seed = pid, tier, seed
         self.t0 = time.time()
         self.scratch = tempfile.mkdtemp(prefix="nvverif-%s-" % pid)
@@ -28,7 +30,7 @@ class Ctx:
         self.known_hits = []
         self.notes = []
         self.build_dir = None
-        for old in glob.glob(os.path.join(VERIF, "replays", pid + "-*.json")):
+        for old in glob.glob(os.path.join(VERIF, "replays", pid + "-*.json")) if wipe else []:
             os.remove(old)          # replay files of earlier runs of this check
         self.known = load_known()
         self.quick = tier == "quick"
@@ -212,7 +214,11 @@ def run_main(fn):
     ap.add_argument("--replay")
     a = ap.parse_args()
     seed = int(os.environ.get("VERIF_SEED", "1"))
-    ctx = Ctx(a.pid, a.tier, seed)
+    a.replay_obj = None
+    if a.replay:
+        a.replay_obj = json.load(open(a.replay))
+        a.replay_obj = a.replay_obj.get("replay", a.replay_obj)
+    ctx = Ctx(a.pid, a.tier, seed, wipe=not a.replay)
     try:
         rc = fn(ctx, a)
     except Infra as e:
